@@ -86,7 +86,10 @@ def trees_for(tier, seed):
              ["and", ["or", ["and", ["lit", "a"], ["lit", "zzz"]], ["and", ["lit", "b.c"], ["lit", "zzz"]]], ["lit", "x"]],
              # wildcards combining ? / [..] with a trailing or leading *
              ["wild", "a?*"], ["not", ["wild", "[ab]?*"]], ["and", ["wild", "?x*"], ["not", ["lit", "a"]]], ["or", ["wild", "*[.]?"], ["lit", "A"]],
-             ["wild", "[!a]*"]]
+             ["wild", "[!a]*"],
+             # match-all patterns: true for every tagged element, false for an untagged one ("not *" = untagged only)
+             ["wild", "*"], ["not", ["wild", "*"]], ["or", ["not", ["wild", "*"]], ["lit", "a"]], ["and", ["wild", "**"], ["not", ["lit", "b.c"]]],
+             ["wild", "?*"]]
     return base + fixed + extra
 
 
